@@ -55,8 +55,13 @@ class Model:
         self.p = subprocess.Popen([path], stdin=subprocess.PIPE, stdout=subprocess.PIPE, text=True, bufsize=1)
 
     def ask(self, line):
+        import select
         self.p.stdin.write(line + "\n")
         self.p.stdin.flush()
+        r, _, _ = select.select([self.p.stdout], [], [], 120)
+        if not r:
+            self.p.kill()
+            raise RuntimeError("model runner did not answer within 120 s to: " + line[:200])
         return self.p.stdout.readline().rstrip("\n")
 
     def close(self):
